@@ -458,6 +458,81 @@ func runC10(w *World, r *Report, tier string) {
 	// ---- R8
 	fQ := w.Field("xmpp.SMState.UnAckQueue")
 	n8 := 0
+	// inESM: the function is EnableStreamManagement, a literal of it, or a helper all of whose callers are
+	const esmKey = "xmpp.(*Session).EnableStreamManagement"
+	var inESM func(fn *ssa.Function, depth int) bool
+	inESM = func(fn *ssa.Function, depth int) bool {
+		if w.ownerKey(fn) == esmKey {
+			return true
+		}
+		sites := w.callSitesOf(w.ownerFn(fn))
+		if depth > 2 || len(sites) == 0 {
+			return false
+		}
+		for _, c := range sites {
+			if !inESM(c.Parent(), depth+1) {
+				return false
+			}
+		}
+		return true
+	}
+	freshQueue := func(v ssa.Value) bool {
+		for _, o := range originsAll(v) {
+			if !w.isResultOf(origin(o), 0, "stanza.NewUnAckQueue") {
+				return false
+			}
+		}
+		return true
+	}
+	// stateSetter: a helper that assigns the state field by field from its parameters; per call site, either a fresh queue
+	// handed down from EnableStreamManagement, or no queue together with an empty session id (the state is being dropped)
+	fIDq := w.Field("xmpp.SMState.Id")
+	stateSetter := func(st *ssa.Store) bool {
+		h := st.Parent()
+		qp, ok := st.Val.(*ssa.Parameter)
+		if !ok || !isHelper(h) {
+			return false
+		}
+		idx := func(p *ssa.Parameter) int {
+			for i, q := range h.Params {
+				if q == p {
+					return i
+				}
+			}
+			return -1
+		}
+		idIdx := -1
+		allInstrs(h, func(in ssa.Instruction) {
+			if s2, ok := in.(*ssa.Store); ok {
+				if fa, ok := s2.Addr.(*ssa.FieldAddr); ok && fieldOfAddr(fa) == fIDq {
+					if p, ok := s2.Val.(*ssa.Parameter); ok {
+						idIdx = idx(p)
+					}
+				}
+			}
+		})
+		qIdx := idx(qp)
+		sites := w.callSitesOf(h)
+		if qIdx < 0 || idIdx < 0 || len(sites) == 0 {
+			return false
+		}
+		for _, c := range sites {
+			a := c.Call.Args
+			if qIdx >= len(a) || idIdx >= len(a) {
+				return false
+			}
+			switch {
+			case isNilConst(a[qIdx]):
+				if s, isS := stringConst(a[idIdx]); !isS || s != "" {
+					return false
+				}
+			case inESM(c.Parent(), 0) && w.isResultOf(origin(a[qIdx]), 0, "stanza.NewUnAckQueue"):
+			default:
+				return false
+			}
+		}
+		return true
+	}
 	for _, a := range w.fieldAccesses(fQ, w.LibFuncs()) {
 		if a.Kind != "store" {
 			continue
@@ -467,7 +542,10 @@ func runC10(w *World, r *Report, tier string) {
 		}
 		n8++
 		cons := fmt.Sprintf("%s#store:UnAckQueue#%d", w.funcKey(a.Fn), n8)
-		okV := w.ownerKey(a.Fn) == "xmpp.(*Session).EnableStreamManagement" && w.isResultOf(origin(a.Val), 0, "stanza.NewUnAckQueue")
+		okV := inESM(a.Fn, 0) && freshQueue(a.Val)
+		if st, isSt := a.Instr.(*ssa.Store); isSt && !okV && stateSetter(st) {
+			okV = true
+		}
 		r.Check(okV, "R8", cons, w.ipos(a.Instr), "the queue of held stanzas is replaced outside EnableStreamManagement or by something other than a fresh queue", "fresh NewUnAckQueue() in EnableStreamManagement")
 	}
 	// the queue can also be put in place as part of a whole new SM state
@@ -485,7 +563,7 @@ func runC10(w *World, r *Report, tier string) {
 			// a state that goes on (it keeps or sets a session id) but comes without the queue: whatever was held is gone,
 			// and from now on Push has nothing to push onto
 			// (EnableStreamManagement, which may install the queue by a second statement, is judged per path below)
-			if idv, keeps := fields["Id"]; keeps && !isZeroValue(idv) && w.ownerKey(a.Fn) != "xmpp.(*Session).EnableStreamManagement" {
+			if idv, keeps := fields["Id"]; keeps && !isZeroValue(idv) && !inESM(a.Fn, 0) {
 				n8++
 				r.Fail("R8", fmt.Sprintf("%s#store:SMState-without-queue#%d", w.ownerKey(a.Fn), n8), w.ipos(a.Instr), "the stream-management state is replaced by one that keeps a session id but has no queue of unacknowledged stanzas: what was held is dropped and nothing sent afterwards is held")
 			}
@@ -493,7 +571,7 @@ func runC10(w *World, r *Report, tier string) {
 		}
 		n8++
 		cons := fmt.Sprintf("%s#store:UnAckQueue#%d", w.ownerKey(a.Fn), n8)
-		okV := w.ownerKey(a.Fn) == "xmpp.(*Session).EnableStreamManagement" && w.isResultOf(origin(qv), 0, "stanza.NewUnAckQueue")
+		okV := inESM(a.Fn, 0) && freshQueue(qv)
 		r.Check(okV, "R8", cons, w.ipos(a.Instr), "the queue of held stanzas is replaced outside EnableStreamManagement or by something other than a fresh queue", "fresh NewUnAckQueue() in EnableStreamManagement")
 	}
 	r.Floor("R8", 1)
